@@ -35,6 +35,14 @@ CHECKS = {
             "Wrapping relies on module attributes unified_enter_schema/unified_exit_schema/_parse_schema being looked up at call time (as they are today). "
             "The TLA+ tracker model + per-edge conformance replay planned in DESIGN.md is an additional layer (see evidence key tlc).",
             "4 C08"),
+    "C19": ("exploration", "exhaustive orbit enumeration (metamorphic): every rendering of every representative document, every declaration order / property order of every small schema graph, every path permutation; manifests compared across the whole orbit",
+            "For every document of the bounded space the complete orbit under re-rendering (JSON / YAML block / YAML flow / YAML with unquoted numeric status keys) and "
+            "re-ordering (all N! schema orders, property reversal, all path permutations up to 4 paths, method reversal) is generated with the real loader/generator and the "
+            "normalised manifests (models -> fields, clients -> signatures) and, for pure re-renderings, the file hashes are required to be identical. A metamorphic relation has "
+            "no expected output, so enumerating complete small orbits is the matching exhaustive check.",
+            "Orbits of documents with more than 3 schemas are covered only through the representative documents; manifests are read through ast (mc/observe.py). "
+            "Known order-dependent inputs are listed one by one in known_sets/.",
+            "4 C19"),
 }
 
 NOT_YET = {}
